@@ -39,6 +39,9 @@ type Step struct {
 	Nth     int    `json:"nth,omitempty"`
 	During  int64  `json:"during,omitempty"`   // trim steps: the clock moves forward by this many seconds while the Trim is scanning (at its Nth directory listing)
 	FaultOp string `json:"fault_op,omitempty"` // "" = the Nth removal fails; open | read = the first open / read of the trim record fails (the record is unreadable)
+	// Look: another goroutine of the process looks entry ID up (GetBytes on the same Cache value) while this Trim is
+	// scanning: it is released at the Trim's Nth directory listing and the schedule decides the rest
+	Look bool `json:"look,omitempty"`
 }
 
 type Plan struct {
@@ -211,6 +214,10 @@ func genPlan(t *rapid.T, tier string) any {
 			s.During = rapid.SampledFrom([]int64{1, 121, 600, 59 * 60}).Draw(t, "duringsecs")
 			s.Nth = rapid.SampledFrom([]int{0, 1, 16, 17, 100, 255}).Draw(t, "duringat")
 		}
+		if (s.Kind == "trim" || s.Kind == "trimat" || s.Kind == "trimrec") && s.Errno == "" && s.During == 0 && rapid.IntRange(0, 3).Draw(t, "look") == 0 {
+			s.Look = true
+			s.Nth = rapid.SampledFrom([]int{0, 1, 16, 17, 100, 255}).Draw(t, "lookat")
+		}
 		p.Steps = append(p.Steps, s)
 	}
 	p.Sched = gen.Sched(t, 300)
@@ -274,6 +281,7 @@ func run(t *testing.T, plan any, keep bool) *simcheck.Outcome {
 	modelRec := ""
 	modelRecOK := false
 	crashes, rmFaults, recFaults, recWriteFaults, clockDuring := 0, 0, 0, 0, 0
+	lookHits, lookDuringScan := 0, 0
 	trimsDue, trimsNotDue, removed, keptNearBoundary := 0, 0, 0, 0
 	jumped := false
 
@@ -441,6 +449,7 @@ func run(t *testing.T, plan any, keep bool) *simcheck.Outcome {
 				before := snapshot(dir)
 				crashed := false
 				unremovable := map[string]bool{} // entry files whose removal was made to fail during this Trim
+				looked := map[string]bool{}      // entry files that a lookup concurrent with this Trim found
 				if st.Kind == "trimcrash" {
 					// the process running Trim stops before its k-th file operation
 					crashes++
@@ -509,8 +518,36 @@ func run(t *testing.T, plan any, keep bool) *simcheck.Outcome {
 							}
 						})
 					}
+					gate, lookDone := false, true
+					if st.Look {
+						listings := 0
+						lookDone = false
+						simos.OnOp(func(proc int, op, class, path string) {
+							if op == "readdir" {
+								if listings == st.Nth && !gate {
+									gate = true
+									lookDuringScan++
+								}
+								listings++
+							}
+						})
+						s.Go("looker", 0, func() {
+							defer func() { lookDone = true }()
+							simrt.Block("look.gate", func() bool { return gate })
+							_, e, err := c.GetBytes(id)
+							if err == nil {
+								lookHits++
+								looked[rel(cachekit.IndexPath(dir, id))] = true
+								looked[rel(cachekit.DataPath(dir, e.OutputID))] = true
+							} else if _, serr := os.Stat(cachekit.IndexPath(dir, id)); serr == nil {
+								looked[rel(cachekit.IndexPath(dir, id))] = true
+							}
+						})
+					}
 					err := c.Trim()
 					simos.OnOp(nil)
+					gate = true // a Trim that was not due lists nothing: the lookup then simply follows it
+					simrt.Block("look.join", func() bool { return lookDone })
 					if err != nil {
 						out.Violate("trim-error", "%s: Trim failed in a fault-free run: %v", where, err)
 						return
@@ -554,6 +591,9 @@ func run(t *testing.T, plan any, keep bool) *simcheck.Outcome {
 						removed++
 					}
 					// (a) used within the last five days => must survive, byte for byte
+					// (a lookup in flight while this very Trim scans is neither before nor after it: for the files it found,
+					// this Trim is judged on the uses that preceded it - a stale file may go or stay - and the lookup
+					// counts in full from the next Trim on)
 					if !fm.lastUse.Before(keepLimit) {
 						if !still || after[k] != before[k] {
 							out.Violate("trim-removed-recent", "%s at %s: entry file %s last stored/looked up at %s (%s ago, within five days) was removed or changed by Trim",
@@ -569,7 +609,7 @@ func run(t *testing.T, plan any, keep bool) *simcheck.Outcome {
 							out.Violate("trim-not-due", "%s: a trim completed %s ago (< 24h) but entry file %s was removed", where, time.Duration(now.Unix()-mustInt(recBytes))*time.Second, k)
 						}
 					case "due":
-						if fm.lastUse.Before(dropLimit) && still && !unremovable[k] {
+						if fm.lastUse.Before(dropLimit) && still && !unremovable[k] && !looked[k] {
 							out.Violate("trim-kept-stale", "%s at %s: trim was due, entry file %s unused since %s (%s, more than five days and an hour) is still there",
 								where, now.UTC().Format(time.RFC3339), k, fm.lastUse.UTC().Format(time.RFC3339), now.Sub(fm.lastUse))
 						}
@@ -590,6 +630,11 @@ func run(t *testing.T, plan any, keep bool) *simcheck.Outcome {
 				for k := range files {
 					if _, ok := after[k]; !ok {
 						delete(files, k)
+					}
+				}
+				for k := range looked {
+					if _, ok := after[k]; ok {
+						use(filepath.Join(dir, k), now)
 					}
 				}
 				if state == "crashed" {
@@ -654,6 +699,8 @@ func run(t *testing.T, plan any, keep bool) *simcheck.Outcome {
 	out.Count("fired_remove_failed_during_trim", int64(rmFaults))
 	out.Count("fired_trim_record_unreadable", int64(recFaults))
 	out.Count("fault_clock_moved_during_trim", int64(clockDuring))
+	out.Count("lookup_released_during_trim_scan", int64(lookDuringScan))
+	out.Count("lookup_concurrent_with_trim_hit", int64(lookHits))
 	out.Count("fired_trim_record_write_failed", int64(recWriteFaults))
 	out.Count("trims_due", int64(trimsDue))
 	out.Count("trims_not_due", int64(trimsNotDue))
@@ -682,7 +729,7 @@ var harness = &simcheck.Harness{
 	Level:    "exploration",
 	Rule: "rapid draws a history of up to 16 (quick) / 30 (thorough) steps: Put, Get, GetBytes, GetFile, OutputFile, clock advances drawn mostly from boundary values " +
 		"(1s ... 24h+-1m, 5d+-1m, 5d1h+-1s/1m, 30d), Trim, trim-record rewrites (valid with recent/old/future offsets, garbage, empty, missing), foreign files, " +
-		"directly aged entry files, and (a quarter of the plans) backward clock jumps; plus macro steps (look an entry up after a gap of under two hours; move the clock to an entry file's last use + 5d or 5d1h +- jitter and Trim; move it to the trim record + 24h +- jitter and Trim; a Trim whose process halts before its k-th file operation; a Trim one of whose removals fails with EPERM/EBUSY/EIO/EACCES - that file may stay, every other stale entry must still go; a Trim during which the trim record cannot be opened or read - a due trim must still do all its work; a Trim whose record write fails with ENOSPC - it may report failure, later trims must work; a Trim during whose scan the clock moves forward by 1 s to 59 min), half the plans with all action ids in one cache subdirectory, a third starting with a store / two lookups / trim-at-threshold scenario, foreign non-empty directories with entry-like names inside an entry subdirectory; non-trivial = the history contains a Trim; " +
+		"directly aged entry files, and (a quarter of the plans) backward clock jumps; plus macro steps (look an entry up after a gap of under two hours; move the clock to an entry file's last use + 5d or 5d1h +- jitter and Trim; move it to the trim record + 24h +- jitter and Trim; a Trim whose process halts before its k-th file operation; a Trim one of whose removals fails with EPERM/EBUSY/EIO/EACCES - that file may stay, every other stale entry must still go; a Trim during which the trim record cannot be opened or read - a due trim must still do all its work; a Trim whose record write fails with ENOSPC - it may report failure, later trims must work; a Trim during whose scan the clock moves forward by 1 s to 59 min; a Trim during whose scan another goroutine looks an entry up on the same handle, released at a drawn directory listing and then scheduled freely), half the plans with all action ids in one cache subdirectory, a third starting with a store / two lookups / trim-at-threshold scenario, foreign non-empty directories with entry-like names inside an entry subdirectory; non-trivial = the history contains a Trim; " +
 		"distinct by the hash of the intercepted file-operation sequence",
 	Gen:     genPlan,
 	NewPlan: func() any { return &Plan{} },
